@@ -27,6 +27,20 @@ def run(ck):
     ep = fn.args.args[0].arg
     ck.rule("R1", "every class dispatched; every child enumerated or constrained; node rebuilt faithfully", floor=14)
     ck.rule("R2", "the non-zero arm carries the != 0 constraint, the zero arm the == 0 constraint", floor=4)
+    ck.rule("R4", "constraints of opposite polarity on one condition stay distinct members of a constraint set", floor=1)
+    # constraints live in frozensets that are united along the product: an equality/hash on the constraint classes that does not
+    # look at the polarity (class or `operator`) merges `c == 0` with `c != 0`, and an infeasible alternative looks satisfiable
+    for cname in ("CondConstraint", "CondConstraintZero", "CondConstraintNotZero"):
+        for meth in ("__eq__",):     # a coarser __hash__ alone only costs collisions
+            f_ = m.funcs.get("%s.%s" % (cname, meth))
+            if f_ is None:
+                ck.ob("R4", "%s.%s" % (cname, meth), True, m.where(m.cls(cname)), "identity semantics (not overridden)")
+                continue
+            t_ = norm(ast.Module(body=f_.body, type_ignores=[]))
+            polar = any(k in t_ for k in ("type(self)", "self.__class__", "self.operator"))
+            ck.ob("R4", "%s.%s" % (cname, meth), polar, m.where(f_),
+                  "%s.%s ignores the polarity of the constraint (neither the class nor `operator` takes part): `c == 0` and `c != 0` "
+                  "collapse to one member of a constraint set" % (cname, meth))
     ck.rule("R3", "n-ary nodes: Cartesian product of alternatives, union of constraints", floor=4)
 
     branches = {}
